@@ -18,14 +18,62 @@ import shutil
 
 import vlib
 
-PROGRAMS_QUICK = ["globals", "closures"]
-PROGRAMS_THOROUGH = ["globals", "closures", "basic", "example1", "interfaces", "fields"]
+GEN = "c20gen"            # a generated program whose functions all read and write the same few globals (see gen_program)
+PROGRAMS_QUICK = [GEN, "closures", "basic"]
+PROGRAMS_THOROUGH = [GEN, "globals", "closures", "basic", "example1", "interfaces", "fields"]
 # run specs of c20racer; runs without report-summaries first, so that a leftover writer goroutine cannot disturb them
-RUNS_QUICK = {"globals": "none;od,rc,rp;nr=0;rs;rs;rs,rc,rp,nr=3",
-              "closures": "rc,rp;od;nr=2;rs,od;rs,od;rs,nr=1"}
+RUNS_QUICK = {GEN: "none;od,rc,rp;nr=0;rs;rs;rs,rc,rp,nr=3",
+              "closures": "rc,rp;od;nr=2;rs,od;rs,od;rs,nr=1",
+              "basic": "rc;rs;rs"}
 RUNS_THOROUGH = "none;none;rc,rp;rc,rp;od;od,rc,rp;nr=0;nr=1;nr=5;rs;rs;rs;rs,rc,rp;rs,od;rs,od;rs,nr=0;rs,nr=0;rs,nr=7,rc"
 
 KNOWN_KEY = "report-summaries-writer"
+
+
+# ------------------------------------------------------------------------------------------ generated program
+def gen_program(seed):
+    """many small functions that all write / read the same few globals (contention on GlobalNode.mutex in the summary
+    workers), call each other, create closures and use strconv (predefined summaries are loaded in BuildGraph STEP 3)"""
+    rnd = vlib.lcg(seed)
+    ng = 2 + rnd(3)
+    nf = 40 + rnd(30)
+    src = ["package main", "", 'import "strconv"', ""]
+    src += ["var g%d string" % i for i in range(ng)]
+    src += ["", 'func source() string { return "s" }', "func sink(s string)    {}", ""]
+    for k in range(nf):
+        w, r, r2 = rnd(ng), rnd(ng), rnd(ng)
+        body = ["\tg%d = g%d + strconv.Itoa(i)" % (w, r)]
+        kind = rnd(4)
+        if kind == 0:
+            body.append("\tg%d = source()" % rnd(ng))
+        elif kind == 1:
+            body.append("\tsink(g%d)" % r2)
+        elif kind == 2:
+            body.append("\th := func(s string) { g%d = s + g%d }\n\th(g%d)" % (w, r2, r))
+        if k > 0 and rnd(2) == 0:
+            body.append("\tf%d(i + 1)" % rnd(k))
+        src.append("func f%d(i int) {\n%s\n}\n" % (k, "\n".join(body)))
+    src.append("func main() {\n%s\n}\n" % "\n".join("\tf%d(%d)" % (k, k) for k in range(nf)))
+    return "\n".join(src)
+
+
+GEN_CONFIG = """taint-tracking-problems:
+  - sources:
+      - package: "c20gen"
+        method: "source"
+    sinks:
+      - package: "c20gen"
+        method: "sink"
+"""
+
+
+def make_gen(work, seed):
+    d = os.path.join(work, GEN)
+    os.makedirs(d)
+    open(os.path.join(d, "go.mod"), "w").write("module c20gen\n\ngo 1.22\n")
+    open(os.path.join(d, "main.go"), "w").write(gen_program(seed))
+    open(os.path.join(d, "config.yaml"), "w").write(GEN_CONFIG)
+    return d
 
 
 # ------------------------------------------------------------------------------------------ matrix (from Coq)
@@ -203,11 +251,10 @@ def run(chk):
 
     # ---------------------------------------------------------------- (1) MapParallel: impl vs spec vs model
     model = None
-    if not failed or True:
-        try:
-            model = vlib.build_model("c20")
-        except vlib.BuildError as e:
-            chk.notes.append("extracted model not built: " + e.what)
+    try:
+        model = vlib.build_model("c20")
+    except vlib.BuildError as e:
+        chk.notes.append("extracted model not built: " + e.what)
     ncases = 150 if quick else 1500
     racelog = os.path.join(work, "mp.race")
     env = dict(vlib.GOENV, GORACE="log_path=%s exitcode=0 halt_on_error=0" % racelog)
@@ -237,6 +284,17 @@ def run(chk):
         d = chk.replay_dir("mappar-timeout")
         write_mp_replay(d, chk, ncases, "c20mappar timed out\n" + out[-2000:])
         chk.violation("mappar-deadlock", "MapParallel harness did not finish (timeout)", d)
+    elif rc not in (0, 1, 3) and re.search(r"^(panic:|fatal error:)", err, flags=re.M):
+        # the Go runtime killed the process: a panic in one of MapParallel's own goroutines (e.g. send on closed
+        # channel, negative WaitGroup counter) or "all goroutines are asleep - deadlock!"
+        found_concrete = True
+        msg = re.search(r"^(panic:|fatal error:).*", err, flags=re.M).group(0)
+        last = max(cases) if cases else -1
+        d = chk.replay_dir("mappar-crash")
+        write_mp_replay(d, chk, ncases, "the process running the real funcutil.MapParallel crashed in case %d (the one after the last "
+                        "completed case %d: %s)\n\n%s" % (last + 1, last, cases.get(last), err[-6000:]))
+        chk.violation("mappar-deadlock" if "deadlock" in msg else "mappar-panic",
+                      "funcutil.MapParallel crashed the process in case %d: %s" % (last + 1, msg), d)
     elif rc not in (0, 1, 3) or not cases:
         raise vlib.BuildError("c20mappar failed (rc=%d)" % rc, out[-2000:] + err[-4000:])
     for i, kv in sorted(cases.items()):
@@ -307,7 +365,8 @@ def run(chk):
     # ---------------------------------------------------------------- (2) racer: the real taint driver under -race
     lines = source_lines(vlib.REPO)
     programs = PROGRAMS_QUICK if quick else PROGRAMS_THOROUGH
-    progdirs = [(p, os.path.join(vlib.REPO, "analysis/taint/testdata", p)) for p in programs]
+    gendir = make_gen(work, chk.seed)
+    progdirs = [(p, gendir if p == GEN else os.path.join(vlib.REPO, "analysis/taint/testdata", p)) for p in programs]
     progdirs = [(p, d) for p, d in progdirs if os.path.isdir(d)]
     specs = {p: (RUNS_QUICK.get(p, "none;rs") if quick else RUNS_THOROUGH) for p, _ in progdirs}
     combos = sorted(set(opts_of(s) for p in specs for s in specs[p].split(";")))
@@ -340,6 +399,15 @@ def run(chk):
             chk.violation("analysis-hang:" + p, "the taint driver did not finish under the race detector on %s" % p, dd)
             continue
         out = open(outp).read()
+        errtxt = open(errp).read()
+        crash = re.search(r"^(panic:|fatal error:).*", errtxt, flags=re.M)
+        if pr.returncode != 0 and "LOADED" in out and crash:
+            found_concrete = True
+            dd = chk.replay_dir("analysis-crash-" + p)
+            last = re.findall(r"^(\d+) BEGIN (\S*)", out, flags=re.M)
+            write_racer_replay(dd, p, d, last[-1][1] if last else "", "the taint driver crashed: %s\n\n%s" % (crash.group(0), errtxt[-6000:]))
+            chk.violation("analysis-crash:" + crash.group(0)[:60], "the taint driver crashed on %s: %s" % (p, crash.group(0)), dd)
+            continue
         if pr.returncode != 0 or "LOADED" not in out:
             raise vlib.BuildError("c20racer failed on %s (rc=%s)" % (p, pr.returncode), out[-1500:] + open(errp).read()[-3000:])
         runs = parse_racer(out)
